@@ -17,8 +17,10 @@ TRUST = 'Trusted: Lean kernel + propext/Classical.choice/Quot.sound (+ bv_decide
 WL = ('Lean 4 theorems over the parametric word-lock small-step model (all action lists = all programs/interleavings), '
       'instantiated at parameters regenerated from the source (tie G: constants, per-site memory orders; bit-field Specs by bv_decide); '
       'tie C: step-level replay of every harness schedule of the real code on the same model; Lean monitors on implementation events find the failing input')
-TH = ('Lean 4 theorems over the IDManager / epoch models; tie G (constants, destructor shape, orders regenerated); '
-      'tie C: thread-level interpreter replayed quantum by quantum against the shim-instrumented real code; Lean monitors on implementation events')
+TH = ('Lean 4 theorems over the IDManager / epoch models (incl. the interleaving models EpochProto / EpochLists: inductive invariants over all schedules); '
+      'tie G (constants, destructor shape, orders regenerated); '
+      'tie C: thread-level interpreter replayed quantum by quantum against the shim-instrumented real code, with the protocol models run in lockstep '
+      'on every replayed trace; Lean monitors on implementation events')
 ZP = ('Lean 4 theorems over the Zipf model (search over any strict total order; tables over any ordered field); tie G (constants, class facts regenerated); '
       'tie C: bit comparison of the Float instance of the same model with the real classes on generated cases incl. breakpoint-exact variates')
 
@@ -37,9 +39,11 @@ TEXT = {
              'c03_check_iff, c03_decisive_read, c03_trylock_sound. OptMon monitor checks guard-level bookkeeping on implementation traces.',
         note=TRUST + 'Guard-object bookkeeping (client layer) by correspondence + monitor.'),
     'C04': dict(technique=TH,
-        text='c04_collected_is_published (collected pins are in the published list, min <= every pin) + heartbeat theorems of C15 (a live slot is never skipped); '
-             'the interleaving argument "a complete guard is seen by the scan" rests on correspondence + pin monitor. PARTIAL; known finding F10 (nested guards).',
-        note=TRUST + 'Partial: concurrent scan argument not mechanised.'),
+        text='c04_protocol / c04_protocol_min: on the interleaving model of the epoch protocol (any capacity, any number of threads with ID reuse, every schedule of the atomic '
+             'steps of claim / exit / CreateEpochGuard / ~EpochGuard / ForwardGlobalEpoch) every guard complete at the start of a forward and alive when it returns is in the '
+             'vector published for the new epoch and min <= its epoch; proto_must_start / proto_must_kept define the quantified guards; c04_protocol_fails_with_original_exit_order '
+             'shows the dependence on the exit order (regenerated). Known finding F10 (nested guards = premise of the theorem).',
+        note=TRUST + 'The protocol model is tied to the thread-level model by runtime lockstep, not by a proof.'),
     'C05': dict(technique=TH,
         text='c05_unique / c05_in_range / c05_stable over the IDManager model: any capacity, any number of threads, any probe start, every interleaving of load/exchange/exit steps.',
         note=TRUST),
@@ -81,11 +85,15 @@ TEXT = {
              'c15_counterexample_original_order (the pre-fix order violates it; F4 fixed).',
         note=TRUST),
     'C16': dict(technique=TH,
-        text='c16_initial, c16_min_le_cur, c16_contains_cur_next, c16_quiescent (no pins => list = [cur+1, cur]), c16_head_is_new; "+1 per forward" by correspondence.',
-        note=TRUST),
+        text='c16_initial, c16_min_le_cur, c16_contains_cur_next, c16_quiescent, c16_head_is_new; for every interleaving (EpochProto): c16_protocol_count (G = initial + completed forwards), '
+             'c16_protocol_step (only the coordinator moves G, by exactly one), c16_protocol_min_le_later_cur, c16_protocol_quiescent (forward without guards publishes [cur+1, cur]); '
+             'c17_protocol_forward_enabled (the list handling of a forward never blocks).',
+        note=TRUST + 'The protocol model is tied to the thread-level model by runtime lockstep, not by a proof.'),
     'C17': dict(technique=TH,
-        text='c17_list_shape (strictly descending, head = epoch, contains epoch-1), c17_read_back; stability/liveness of the node while the guard lives by correspondence + list monitors. PARTIAL; known finding F6.',
-        note=TRUST + 'Partial: concurrent lifetime argument not mechanised.'),
+        text='c17_protocol / c17_protocol_stable: on the interleaving model with list nodes (EpochLists) every complete guard finds, by the lookup of GetProtectedEpochs, the vector published '
+             'for its epoch (strictly descending, head = epoch, contains epoch-1), and the very same vector for as long as it lives, whatever the coordinator does (node creation, pruning); '
+             'premise: no stale EnterEpoch store = known finding F6 (lists_stale_premise_needed reproduces F6 on the model). c17_list_shape, c17_read_back, sequential histories (c17_sequential_*).',
+        note=TRUST + 'The protocol model is tied to the thread-level model by runtime lockstep, not by a proof; the lookup walk is one atomic step of the model.'),
     'C18': dict(technique=ZP,
         text='c18_exact_entries / c18_exact_monotone / c18_one_bin / c18_approx_equals_exact / c18_approx_last_is_one over any ordered field. "Up to rounding" and "within 0.01" are TESTS '
              '(bit comparison, long double reference); known finding F9, F11 fixed.',
@@ -94,8 +102,9 @@ TEXT = {
         text='c19_class_facts (regenerated: operator() const, no mutable/static state but the distribution, both ctors throw), c19_function_of_table_and_variate, c19_table_function_of_params; purity runs (copies, moves, threads).',
         note=TRUST),
     'C20': dict(technique=TH,
-        text='c20_published_exact (published list = distinct {new, prev, pins} descending), c20_published_unique, c20_min_is_smallest; node-count bound and destructor by monitors on allocation events (staircase/deep histories).',
-        note=TRUST + 'prune theorems not yet mechanised.'),
+        text='c20_published_exact (published list = distinct {new, prev, pins} descending), c20_published_unique, c20_min_is_smallest; c20_history_total / c20_forward_after_history / c20_prune_exact: every sequential '
+             'history runs to completion, the pruning walk keeps exactly the wanted nodes plus the oldest (node bound); c17_protocol_forward_enabled: the walk terminates in every interleaving; destructor by monitors on allocation events.',
+        note=TRUST),
 }
 
 
